@@ -183,6 +183,41 @@ func scripts() map[string]Script {
 		// each complete exit leaves validator-share dust that survives, and the last exit drains the asset
 		"drain-slashed": drainSlashed(false),
 		"drain-slashed-2": drainSlashed(true),
+		// gov-table: every governance message x every signer kind with otherwise valid fields, in the asset
+		// states absent / empty / staked, plus the three legacy contents (with and without ValidateBasic)
+		"gov-table": func(g *Gen, c *Config) []Step {
+			c.Assets = []AssetSpec{{Denom: "aaa", Weight: "0.5", WMin: "0", WMax: "10", TakeRate: "0.01", StartDelay: -int64(time.Hour), Mag: "1000000"}}
+			c.Fund = "1000000000"
+			var st []Step
+			signers := []string{"actor", "mod", "pool", "distr", "empty", "garbage", "auth"}
+			spec := func(signer, denom string) *GovSpec {
+				return &GovSpec{Signer: signer, Denom: denom, Weight: "0.3", WMin: "0.1", WMax: "5", Take: "0.02", Rate: "0.99", Interval: int64(time.Hour), DelayNs: int64(time.Hour), TakeIvlNs: int64(time.Minute), KeepClock: true}
+			}
+			st = append(st, Step{K: "delegate", A: 0, V: 1, Den: "aaa", Amt: "500000"}, blk(6*time.Second, "1000000stake"))
+			for _, sg := range signers {
+				st = append(st,
+					Step{K: "gov_create", A: 1, Gov: spec(sg, "ddd")},  // absent -> created only by the authority
+					Step{K: "gov_create", A: 1, Gov: spec(sg, "aaa")},  // duplicate
+					Step{K: "gov_update", A: 1, Gov: spec(sg, "aaa")},  // staked asset
+					Step{K: "gov_update", A: 1, Gov: spec(sg, "zzz")},  // absent asset
+					Step{K: "gov_delete", A: 1, Gov: spec(sg, "aaa")},  // staked: never deletable
+					Step{K: "gov_params", A: 1, Gov: spec(sg, "")},
+				)
+			}
+			st = append(st, blk(6*time.Second, "1000000stake"))
+			for _, nv := range []bool{false, true} {
+				a, b, d := spec("auth", "eee"), spec("auth", "eee"), spec("auth", "eee")
+				a.NoValidate, b.NoValidate, d.NoValidate = nv, nv, nv
+				b.Weight = "0.4"
+				st = append(st, Step{K: "legacy_create", Gov: a}, Step{K: "legacy_create", Gov: a}, Step{K: "legacy_update", Gov: b}, Step{K: "legacy_delete", Gov: d}, Step{K: "legacy_delete", Gov: d})
+			}
+			// the authority can delete the empty asset ddd, nobody else could
+			for _, sg := range signers {
+				st = append(st, Step{K: "gov_delete", A: 1, Gov: spec(sg, "ddd")})
+			}
+			st = append(st, blk(6*time.Second, "1000000stake"))
+			return st
+		},
 		// a native delegator removes the whole delegation, followed by quiet blocks
 		"native-full-exit": func(g *Gen, c *Config) []Step {
 			fee := "2000000stake"
@@ -240,6 +275,7 @@ func checkDefs() map[string]*CheckDef {
 		},
 		{
 			Prop: "C16",
+			Scripts: []string{"gov-table"},
 			Runs: []ProfRun{{"gov", 64, 1200}},
 			Mons: func(r *Runner) []Monitor { return []Monitor{NewMonC16(r)} },
 			Required: []string{"C16.gov_create/auth", "C16.gov_update/auth", "C16.gov_delete/auth", "C16.gov_params/auth", "C16.gov_update/actor", "C16.legacy_create", "C16.legacy_update", "C16.legacy_delete"},
@@ -248,6 +284,7 @@ func checkDefs() map[string]*CheckDef {
 		},
 		{
 			Prop: "C17",
+			Scripts: []string{"gov-table"},
 			Runs: []ProfRun{{"gov", 64, 1200}, {"extreme", 24, 400}, {"time", 24, 400}},
 			Mons: func(r *Runner) []Monitor { return []Monitor{NewMonC17(r)} },
 			Required: []string{"C17.accepted.gov_params", "C17.accepted.gov_update", "C17.state/"},
